@@ -473,3 +473,136 @@ package implementation
 //@   loop 1
 //@     invariant 0 <= i && (foundIndex == -1 || (0 <= foundIndex && foundIndex < len(network.TokenPairs)))
 //@     invariant network != nil && request != nil && request.Amount != nil
+
+// ======================================================================================================================
+// Property C09, index and division sweep over the receive paths that carry no functional contract: each is marked `safety`
+// so that every slice/array index and every math/big division in it (and in the helpers it executes) becomes an obligation.
+// Only those two kinds are claimed by the check (claim_only); nil-dereference and explicit-panic obligations of these bodies
+// depend on the well-formedness of stored entries and are generated but not claimed. Not swept: the two ProposeAdministrator
+// methods (the engine does not merge the pointer shapes their vote loops produce).
+//@ func AddPhaseMethod.ReceiveBlock(p, context, sendBlock)
+//@   safety
+//@   requires p != nil && sendBlock != nil && sendBlock.Amount != nil
+//@ func BurnZnnMethod.ReceiveBlock(p, context, sendBlock)
+//@   safety
+//@   requires p != nil && sendBlock != nil && sendBlock.Amount != nil
+//@ func CancelLiquidityStakeMethod.ReceiveBlock(p, context, sendBlock)
+//@   safety
+//@   requires p != nil && sendBlock != nil && sendBlock.Amount != nil
+//@ func ChangeAdministratorLiquidity.ReceiveBlock(p, context, sendBlock)
+//@   safety
+//@   requires p != nil && sendBlock != nil && sendBlock.Amount != nil
+//@ func ChangeAdministratorMethod.ReceiveBlock(p, context, sendBlock)
+//@   safety
+//@   requires p != nil && sendBlock != nil && sendBlock.Amount != nil
+//@ func ChangeTssECDSAPubKeyMethod.ReceiveBlock(p, context, sendBlock)
+//@   safety
+//@   requires p != nil && sendBlock != nil && sendBlock.Amount != nil
+//@ func CollectRewardMethod.ReceiveBlock(p, context, sendBlock)
+//@   safety
+//@   requires p != nil && sendBlock != nil && sendBlock.Amount != nil
+//@ func CreateProjectMethod.ReceiveBlock(p, context, sendBlock)
+//@   safety
+//@   requires p != nil && sendBlock != nil && sendBlock.Amount != nil
+//@ func DelegateMethod.ReceiveBlock(p, context, sendBlock)
+//@   safety
+//@   requires p != nil && sendBlock != nil && sendBlock.Amount != nil
+//@ func DonateMethod.ReceiveBlock(p, context, sendBlock)
+//@   safety
+//@   requires p != nil && sendBlock != nil && sendBlock.Amount != nil
+//@ func EmergencyLiquidity.ReceiveBlock(p, context, sendBlock)
+//@   safety
+//@   requires p != nil && sendBlock != nil && sendBlock.Amount != nil
+//@ func EmergencyMethod.ReceiveBlock(p, context, sendBlock)
+//@   safety
+//@   requires p != nil && sendBlock != nil && sendBlock.Amount != nil
+//@ func FundMethod.ReceiveBlock(p, context, sendBlock)
+//@   safety
+//@   requires p != nil && sendBlock != nil && sendBlock.Amount != nil
+//@ func HaltMethod.ReceiveBlock(p, context, sendBlock)
+//@   safety
+//@   requires p != nil && sendBlock != nil && sendBlock.Amount != nil
+//@ func LegacyRegisterMethod.ReceiveBlock(p, context, sendBlock)
+//@   safety
+//@   requires p != nil && sendBlock != nil && sendBlock.Amount != nil
+//@ func LiquidityStakeMethod.ReceiveBlock(p, context, sendBlock)
+//@   safety
+//@   requires p != nil && sendBlock != nil && sendBlock.Amount != nil
+//@ func NominateGuardiansLiquidity.ReceiveBlock(p, context, sendBlock)
+//@   safety
+//@   requires p != nil && sendBlock != nil && sendBlock.Amount != nil
+//@ func NominateGuardiansMethod.ReceiveBlock(p, context, sendBlock)
+//@   safety
+//@   requires p != nil && sendBlock != nil && sendBlock.Amount != nil
+//@ func RemoveNetworkMethod.ReceiveBlock(p, context, sendBlock)
+//@   safety
+//@   requires p != nil && sendBlock != nil && sendBlock.Amount != nil
+//@ func RemoveTokenPairMethod.ReceiveBlock(p, context, sendBlock)
+//@   safety
+//@   requires p != nil && sendBlock != nil && sendBlock.Amount != nil
+//@ func RevokeUnwrapRequestMethod.ReceiveBlock(p, context, sendBlock)
+//@   safety
+//@   requires p != nil && sendBlock != nil && sendBlock.Amount != nil
+//@ func SetAdditionalReward.ReceiveBlock(p, context, sendBlock)
+//@   safety
+//@   requires p != nil && sendBlock != nil && sendBlock.Amount != nil
+//@ func SetAllowKeygenMethod.ReceiveBlock(p, context, sendBlock)
+//@   safety
+//@   requires p != nil && sendBlock != nil && sendBlock.Amount != nil
+//@ func SetBridgeMetadataMethod.ReceiveBlock(p, context, sendBlock)
+//@   safety
+//@   requires p != nil && sendBlock != nil && sendBlock.Amount != nil
+//@ func SetIsHalted.ReceiveBlock(p, context, sendBlock)
+//@   safety
+//@   requires p != nil && sendBlock != nil && sendBlock.Amount != nil
+//@ func SetNetworkMetadataMethod.ReceiveBlock(p, context, sendBlock)
+//@   safety
+//@   requires p != nil && sendBlock != nil && sendBlock.Amount != nil
+//@ func SetNetworkMethod.ReceiveBlock(p, context, sendBlock)
+//@   safety
+//@   requires p != nil && sendBlock != nil && sendBlock.Amount != nil
+//@ func SetOrchestratorInfoMethod.ReceiveBlock(p, context, sendBlock)
+//@   safety
+//@   requires p != nil && sendBlock != nil && sendBlock.Amount != nil
+//@ func SetTokenPairMethod.ReceiveBlock(p, context, sendBlock)
+//@   safety
+//@   requires p != nil && sendBlock != nil && sendBlock.Amount != nil
+//@ func SwapRetrieveAssetsMethod.ReceiveBlock(p, context, sendBlock)
+//@   safety
+//@   requires p != nil && sendBlock != nil && sendBlock.Amount != nil
+//@ func UndelegateMethod.ReceiveBlock(p, context, sendBlock)
+//@   safety
+//@   requires p != nil && sendBlock != nil && sendBlock.Amount != nil
+//@ func UnhaltMethod.ReceiveBlock(p, context, sendBlock)
+//@   safety
+//@   requires p != nil && sendBlock != nil && sendBlock.Amount != nil
+//@ func UnlockLiquidityStakeEntries.ReceiveBlock(p, context, sendBlock)
+//@   safety
+//@   requires p != nil && sendBlock != nil && sendBlock.Amount != nil
+//@ func UpdateEmbeddedAcceleratorMethod.ReceiveBlock(p, context, sendBlock)
+//@   safety
+//@   requires p != nil && sendBlock != nil && sendBlock.Amount != nil
+//@ func UpdateEmbeddedPillarMethod.ReceiveBlock(p, context, sendBlock)
+//@   safety
+//@   requires p != nil && sendBlock != nil && sendBlock.Amount != nil
+//@ func UpdateEmbeddedStakeMethod.ReceiveBlock(p, context, sendBlock)
+//@   safety
+//@   requires p != nil && sendBlock != nil && sendBlock.Amount != nil
+//@ func UpdatePhaseMethod.ReceiveBlock(p, context, sendBlock)
+//@   safety
+//@   requires p != nil && sendBlock != nil && sendBlock.Amount != nil
+//@ func UpdatePillarMethod.ReceiveBlock(p, context, sendBlock)
+//@   safety
+//@   requires p != nil && sendBlock != nil && sendBlock.Amount != nil
+//@ func UpdateTokenMethod.ReceiveBlock(p, context, sendBlock)
+//@   safety
+//@   requires p != nil && sendBlock != nil && sendBlock.Amount != nil
+//@ func UpdateWrapRequestMethod.ReceiveBlock(p, context, sendBlock)
+//@   safety
+//@   requires p != nil && sendBlock != nil && sendBlock.Amount != nil
+//@ func VoteByNameMethod.ReceiveBlock(p, context, sendBlock)
+//@   safety
+//@   requires p != nil && sendBlock != nil && sendBlock.Amount != nil
+//@ func VoteByProdAddressMethod.ReceiveBlock(p, context, sendBlock)
+//@   safety
+//@   requires p != nil && sendBlock != nil && sendBlock.Amount != nil
